@@ -2,7 +2,7 @@
    Only ExtrOcamlBasic (bool, option, list, prod, unit, sumbool -> OCaml's own types);
    N, Z, positive, nat stay the extracted inductive types.  No Extract Constant. *)
 From Coq Require Extraction ExtrOcamlBasic.
-From Shred Require Import Base SrcParams Plan PlanObs Exec ExecObs Visit Fault World SysData Meta ParSeq Async.
+From Shred Require Import Base SrcParams Plan PlanObs Exec ExecObs Visit Fault World SysData Meta ParSeq Async Pool.
 Extraction Language OCaml.
 Extraction "extracted/model.ml"
   cap join_slack time_values tuple_arities params_source
@@ -17,4 +17,5 @@ Extraction "extracted/model.ml"
   sd_reads sd_writes sd_setup sd_fetch drop_guards classes present_mask world_with
   mstep empty_mstate dedup_first mrun
   t_reads t_writes t_leaves build_panics par_ok tree_accept order_ok seq_trace
-  acc_run acc_init.
+  acc_run acc_init
+  pool_can_rendezvous.
